@@ -772,7 +772,8 @@ def run_net(ctx, case):
                     npaths[kk] = count_simple_paths({k: [t for t in v if t in nbr] for k, v in nbr.items()}, st)
                 deg = max([len(v) for v in nbr.values()] + [1])
                 net.c20_calls = 0
-                net.c20_budget = 50 * (npaths[kk] + len(ids) + 1) * (deg + 2)
+                # a correct run looks up one successor list and at most `deg` lengths per duplicate-free chain: 3x that is generous
+                net.c20_budget = 3 * (npaths[kk] + len(ids) + 1) * (deg + 2) + 50
                 sub = {"kind": "net", "nodes": nodes, "queries": [q]}
                 signal.setitimer(signal.ITIMER_REAL, 30.0)
                 try:
